@@ -419,18 +419,18 @@ func checkC11(tier string, seed uint64) int {
 			"rule": "one seeded operation history (8-44 steps over Set/SetSQN/SetOverflow/AddOne/Get/SQN/Overflow, 1-3 interleaved instances; every 64th history is a long-run history with bursts of 255..131k increments; state 0 is also entered as the zero value without Set) per start state; " +
 				"thorough enumerates every one of the 2^24 start states, quick draws 2^16 boundary-biased ones; non-trivial = the history crosses a 255->0 sequence-number carry " +
 				"or the 2^24-1->0 wrap at least once; distinct = distinct start states among those (bitset over 2^24)",
-			"samples":                  samples,
-			"exhaustive_start_states":  exhaustive,
-			"start_states":             nstarts,
-			"steps_executed":           steps,
-			"nontrivial_histories":     nontriv,
-			"histories_per_hour":       float64(histories) / wall * 3600,
-			"fault_kinds_injected":     map[string]int{},
-			"fault_kinds_note":         "none available: security.Count is a single-owner value with no I/O, clock, lock or peer; the only quantifier is the operation history",
-			"simulated_time":           "none (no timers in the object)",
-			"real_vs_stub":             map[string]string{"security.Count": "real code from /repo working tree", "reference model": "24-bit integer in the harness", "scheduler": "history order decided by the seeded generator"},
-			"invariants_per_step":      []string{"observation density varies per history: after every step / every 4th step / only explicit reads and the end", "Get()==model", "SQN()==model mod 256", "Overflow()==model div 256", "Get()<2^24", "Get()==Overflow()*256+SQN()", "repeated read unchanged", "other instances unchanged"},
-			"determinism":              "history is a pure function of (seed, index); replay file re-executed in a fresh process before any VIOLATION is printed",
+			"samples":                 samples,
+			"exhaustive_start_states": exhaustive,
+			"start_states":            nstarts,
+			"steps_executed":          steps,
+			"nontrivial_histories":    nontriv,
+			"histories_per_hour":      float64(histories) / wall * 3600,
+			"fault_kinds_injected":    map[string]int{},
+			"fault_kinds_note":        "none available: security.Count is a single-owner value with no I/O, clock, lock or peer; the only quantifier is the operation history",
+			"simulated_time":          "none (no timers in the object)",
+			"real_vs_stub":            map[string]string{"security.Count": "real code from /repo working tree", "reference model": "24-bit integer in the harness", "scheduler": "history order decided by the seeded generator"},
+			"invariants_per_step":     []string{"observation density varies per history: after every step / every 4th step / only explicit reads and the end", "Get()==model", "SQN()==model mod 256", "Overflow()==model div 256", "Get()<2^24", "Get()==Overflow()*256+SQN()", "repeated read unchanged", "other instances unchanged"},
+			"determinism":             "history is a pure function of (seed, index); replay file re-executed in a fresh process before any VIOLATION is printed",
 		},
 		Assumptions: []string{
 			"start states are entered through Set(overflow, sqn), the only public way to reach them",
